@@ -133,7 +133,15 @@ func runQuery(dir, base, script string, timeoutSec int, seed int) (status, solve
 	var satAns, unsatAns *ans
 	for range jobs {
 		a := <-ch
-		first := strings.TrimSpace(strings.SplitN(a.out, "\n", 2)[0])
+		first := ""
+		for _, l := range strings.Split(a.out, "\n") {
+			l = strings.TrimSpace(l)
+			if l == "" || strings.HasPrefix(l, "WARNING") {
+				continue
+			}
+			first = l
+			break
+		}
 		outs[a.solver] = first
 		switch first {
 		case "unsat":
